@@ -625,7 +625,8 @@ func TestDirected(t *testing.T) {
 	if err != nil {
 		t.Fatalf("HARNESS-ERROR: %v", err)
 	}
-	for _, caller := range []string{cwd + "/x.go:12", filepath.Dir(cwd) + "/lp/run.go:276", "/elsewhere/y.go:1", "relative/z.go:3"} {
+	for _, caller := range []string{cwd + "/x.go:12", filepath.Dir(cwd) + "/lp/run.go:276", "/elsewhere/y.go:1", "relative/z.go:3",
+		cwd + "-v2/y.go:3", cwd + "x/y.go:3", filepath.Dir(cwd) + "-old/c16/y.go:4", cwd + "/../c16/./z.go:5", cwd + ":7", "/:1"} {
 		for _, dirs := range [][]string{{".."}, {"/", cwd}, {"..", "..", "/"}, {cwd}} {
 			line, _ := json.Marshal(map[string]string{"time": "2023-11-14T22:13:20Z", "level": "info", "caller": caller, "message": "m"})
 			c := &Case{Set: set, Line: append(line, '\n'), Opts: Opts{Zone: &z}, Chdirs: dirs}
